@@ -127,6 +127,35 @@ mod union;
 pub use self::sketch::HllSketch;
 #[cfg(feature = "verif-hooks")]
 pub use self::sketch::VerifHllState;
+
+/// Estimate and bounds of a [`estimator::HipEstimator`] in the given state, for the external
+/// verification harness (feature `verif-hooks`): `[estimate, lb1, lb2, lb3, ub1, ub2, ub3]`.
+#[cfg(feature = "verif-hooks")]
+#[allow(clippy::too_many_arguments)]
+pub fn verif_estimator_bounds(
+    lg_config_k: u8,
+    out_of_order: bool,
+    hip_accum: f64,
+    kxq0: f64,
+    kxq1: f64,
+    cur_min: u8,
+    num_at_cur_min: u32,
+) -> [f64; 7] {
+    use crate::common::NumStdDev;
+    let mut est = estimator::HipEstimator::new(lg_config_k);
+    est.set_hip_accum(hip_accum);
+    est.set_kxq0(kxq0);
+    est.set_kxq1(kxq1);
+    est.set_out_of_order(out_of_order);
+    let sd = [NumStdDev::One, NumStdDev::Two, NumStdDev::Three];
+    let mut out = [0.0; 7];
+    out[0] = est.estimate(lg_config_k, cur_min, num_at_cur_min);
+    for (i, s) in sd.iter().enumerate() {
+        out[1 + i] = est.lower_bound(lg_config_k, cur_min, num_at_cur_min, *s);
+        out[4 + i] = est.upper_bound(lg_config_k, cur_min, num_at_cur_min, *s);
+    }
+    out
+}
 pub use self::union::HllUnion;
 
 /// Target HLL type.
